@@ -664,3 +664,68 @@ theorem objVerify_of_hashed {hash salt : Bytes} {hashLength opslimit memlimit al
   · rw [e] at hmade; cases hmade
 
 end DryocVerif.Proofs.PwhashExtra
+
+/-! ### the producer side of the OBJECT API: `PwHash::hash_with_salt(..)?.to_string()` -/
+
+namespace DryocVerif.Proofs.PwhashExtra
+open DryocVerif DryocVerif.Model.Argon2 DryocVerif.Model.PwhashStr DryocVerif.Proofs.Argon2
+
+theorem algNum_cases (alg : Alg) : alg.num = 1 ∨ alg.num = 2 := by cases alg <;> simp [Alg.num]
+
+/-- what an `Ok` of `crypto_pwhash` implies, with no side condition: the limits were in range, the call WAS
+`argon2_hash(opslimit, memlimit / 1024, 1, …)`, the Argon2 parameters were accepted, `outlen` bytes came back -/
+theorem cryptoPwhash_ok_inv {n : Nat} {pwd salt : Bytes} {opslimit memlimit alg : Nat} {hash : Bytes}
+    (halg : alg = 1 ∨ alg = 2) (e : cryptoPwhash n pwd salt opslimit memlimit alg = .ok hash) :
+    (1 ≤ opslimit ∧ opslimit ≤ 4294967295) ∧ (8192 ≤ memlimit ∧ memlimit ≤ 4398046510080)
+      ∧ argon2Hash alg opslimit (memlimit / 1024) 1 pwd salt none none n = .ok hash
+      ∧ Valid n pwd.length salt.length none none opslimit (memlimit / 1024) 1 ∧ hash.length = n := by
+  rw [cryptoPwhash_eq _ _ _ _ _ _ halg] at e
+  by_cases h1 : 1 ≤ opslimit ∧ opslimit ≤ 4294967295
+  · by_cases h2 : 8192 ≤ memlimit ∧ memlimit ≤ 4398046510080
+    · rw [if_pos h1, if_pos h2] at e
+      have := argon2Hash_ok_inv (secret := none) (ad := none) e
+      exact ⟨h1, h2, e, this.1, this.2⟩
+    · rw [if_pos h1, if_neg h2] at e; cases e
+  · rw [if_neg h1] at e; cases e
+
+/-- `to_string` of a `PwHash` whose limits passed `crypto_pwhash`'s range checks prints those limits untruncated -/
+theorem objToString_eq (alg : Alg) {opslimit memlimit : Nat} (salt hash : Bytes)
+    (ho : opslimit ≤ 4294967295) (hm : memlimit ≤ 4398046510080) :
+    objToString alg opslimit memlimit salt hash = encode alg opslimit (memlimit / 1024) salt hash := by
+  unfold objToString
+  rw [convertCosts_eq ho hm]
+
+/-- **the object API's producer is self-describing and self-verifying**, from `Ok` alone -/
+theorem objHash_toString_self_describing {alg : Alg} {n : Nat} {pwd salt hash : Bytes} {opslimit memlimit : Nat}
+    (hmade : objHashWithSalt n salt opslimit memlimit alg.num pwd = .ok hash) :
+    parse (objToString alg opslimit memlimit salt hash)
+        = .ok { pwhash := some hash, salt := some salt, ty := some alg, t := some opslimit,
+                m := some (memlimit / 1024), p := some 1, version := some 19 }
+      ∧ strVerifyRaw (objToString alg opslimit memlimit salt hash) pwd = .ok () := by
+  obtain ⟨h1, h2, ha, hv, hlen⟩ := cryptoPwhash_ok_inv (algNum_cases alg) hmade
+  have ht : opslimit < 2 ^ 32 := by omega
+  have hm : memlimit / 1024 < 2 ^ 32 := by omega
+  have hs : salt ≠ [] := by
+    have := hv.salt_ge
+    intro e; rw [e] at this; simp at this
+  have hh : hash ≠ [] := by
+    have := hv.outlen_ge
+    intro e; rw [e] at hlen; simp at hlen; omega
+  have hp := parse_encode alg opslimit (memlimit / 1024) salt hash ht hm hs hh
+  rw [objToString_eq alg salt hash h1.2 h2.2]
+  refine ⟨hp, ?_⟩
+  rw [strVerifyRaw_iff pwd hp, hlen, cryptoPwhash_of_costs (algNum_cases alg) ht hm]
+  exact ha
+
+/-- **Observation.**  `crypto_pwhash_str_needs_rehash` truncates the requested limits with `convert_costs` BEFORE
+comparing and never range-checks them: a request of `t + 2^32` operations is answered `Ok(false)` ("no rehash
+needed") on a string recorded with `t`. -/
+theorem needsRehash_wraps (alg : Alg) (t m : Nat) (salt hash : Bytes)
+    (ht : t < 2 ^ 32) (hm : m < 2 ^ 32) (hs : salt ≠ []) (hh : hash ≠ []) :
+    needsRehash (encode alg t m salt hash) (t + 2 ^ 32) (1024 * m) = .ok false := by
+  unfold needsRehash
+  rw [parse_encode alg t m salt hash ht hm hs hh]
+  simp only [Outcome.ok.injEq, decide_eq_false_iff_not, not_or, Decidable.not_not, Option.some.injEq]
+  omega
+
+end DryocVerif.Proofs.PwhashExtra
